@@ -670,3 +670,121 @@ def replay(func, cex):   # noqa: F811
         return {"violated": bool(why), "observed": why, "what": f"program {p['name']} inputs ({a}, {b}, {bool(c)}): {why}\n{p['src']}",
                 "fingerprint": f"cover:{p['name']}:{p.get('hash') or __import__('hashlib').sha256(p['src'].encode()).hexdigest()[:10]}"}
     return _replay_calls(func, cex)
+
+
+# ---- C05: lexical scoping ------------------------------------------------------------------------------------------------
+def scope_tables(i):
+    """(lian: {(stmt id, name): set(symbol ids)}, decls: {(method id or 0, name): decl stmt id}) built natively."""
+    p = BATCH["programs"][i]
+    if "_scope" not in p:
+        from vlib.gir_interp import Unit
+        res = {}
+        for t in ("space1", "space"):
+            for r in p.get(t, []):
+                if r.get("symbol_or_state") == 0 and r.get("name") is not None:
+                    res.setdefault((r["stmt_id"], r["name"]), set()).add(r["symbol_id"])
+        u = Unit(p["rows"])
+        decls = {}
+        unit_init = None
+
+        def scan(block, m):
+            for r in u.children.get(block, []):
+                op = r["operation"]
+                if op in ("variable_decl", "parameter_decl"):
+                    decls.setdefault((m, r["name"]), r["stmt_id"])
+                elif op in ("method_decl", "class_decl"):
+                    decls.setdefault((m, r["name"]), r["stmt_id"])
+                    if op == "method_decl":
+                        for k in ("parameters", "body"):
+                            if isinstance(r.get(k), int):
+                                scan(r[k], r["stmt_id"])
+                    continue
+                for k in ("body", "then_body", "else_body"):
+                    if isinstance(r.get(k), int) and op not in ("method_decl", "class_decl"):
+                        scan(r[k], m)
+        for r in u.top:
+            op = r["operation"]
+            if op == "variable_decl":
+                decls.setdefault((0, r["name"]), r["stmt_id"])
+            elif op == "method_decl":
+                if r.get("name") == "%unit_init":
+                    unit_init = r["stmt_id"]
+                    continue
+                decls.setdefault((0, r["name"]), r["stmt_id"])
+                for k in ("parameters", "body"):
+                    if isinstance(r.get(k), int):
+                        scan(r[k], r["stmt_id"])
+            elif op == "class_decl":
+                decls.setdefault((0, r["name"]), r["stmt_id"])
+                for mr in u.children.get(r.get("methods"), []):
+                    if mr["operation"] == "method_decl":
+                        for k in ("parameters", "body"):
+                            if isinstance(mr.get(k), int):
+                                scan(mr[k], mr["stmt_id"])
+        p["_scope"] = ({k: frozenset(v) for k, v in res.items()}, decls, unit_init)
+    return p["_scope"]
+
+
+def scope_violation(i, args):
+    lian, decls, unit_init = scope_tables(i)
+    problems = []
+
+    def on_bind(act, owner, name):
+        if problems or name.startswith("%"):
+            return
+        cur = getattr(act, "cur", None)
+        if cur is None:
+            return
+        sid = cur["stmt_id"]
+        got = lian.get((sid, name))
+        if got is None:
+            return                                  # lian has no entry for this occurrence (not analysed): not judged here
+        m = owner.method_id
+        if owner is owner.module or owner.vars is owner.module.vars or m == unit_init:
+            m = 0
+        if owner.cls is not None and m not in (0,) and (m, name) not in decls:
+            return                                  # class initialiser scope: class attributes are fields, judged by C08/C09
+        want = decls.get((m, name))
+        if want is None:
+            return
+        if got != {want}:
+            problems.append(f"`{name}` at statement {sid} ({cur['operation']}) is bound by the language to the declaration {want} "
+                            f"(scope of method {m if m else 'module'}), lian resolves it to {sorted(got)}")
+    run_module(i, args, {"on_bind": on_bind})
+    return problems[0] if problems else None
+
+
+def check_scope(pidx: int, a: int, b: int, c: bool) -> bool:
+    """
+    pre: _pre(pidx, a, b)
+    post: _
+    """
+    why = scope_violation(pidx, (a, b, c))
+    if why:
+        return fail("scope", prog=BATCH["programs"][pidx]["name"], pidx=pidx, args=[a, b, c], why=why)
+    return True
+
+
+def check_scope_reach(pidx: int, a: int, b: int, c: bool) -> bool:
+    """
+    pre: _pre(pidx, a, b)
+    post: _
+    """
+    seen = []
+    run_module(pidx, (a, b, c), {"on_bind": lambda act, owner, name: seen.append(1)})
+    return not (len(seen) >= 4)
+
+
+_replay_cover = replay
+
+
+def replay(func, cex):   # noqa: F811
+    if func.startswith("check_scope"):
+        prepare({"batch": SLICE["batch"]}) if not BATCH["programs"] else None
+        i = cex["pidx"]
+        a, b, c = cex["args"]
+        p = BATCH["programs"][i]
+        why = scope_violation(i, (a, b, bool(c)))
+        return {"violated": bool(why), "observed": why, "what": f"program {p['name']} inputs ({a}, {b}, {bool(c)}): {why}\n{p['src']}",
+                "fingerprint": f"scope:{p['name']}:{p.get('hash') or __import__('hashlib').sha256(p['src'].encode()).hexdigest()[:10]}"}
+    return _replay_cover(func, cex)
